@@ -9,7 +9,8 @@
     mathematical comparison of two values of one type). *)
 From Coq Require Import ZArith List Bool Strings.Byte.
 From YV Require Import Base.Wrap Val.Model Val.Proofs Tree.Schema Tree.Editor Tree.XPathLex Tree.When
-  Tree.WhenSpec Tree.XPathLexProofs Tree.WhenProofs Tree.WhenEditProofs.
+  Tree.WhenSpec Tree.XPathLexProofs Tree.WhenProofs Tree.WhenEditProofs
+  Tree.Merge Tree.EditorProofs Tree.WhenWrite Tree.WhenWriteProofs Tree.WhenHideProofs.
 Import ListNotations.
 Open Scope Z_scope.
 
@@ -198,3 +199,250 @@ Example C16_hyps_met :
   xpredicate ex_kids [None; Some (DCont [None])] [x63;x2f;x69;x21;x3d;x33] = XOk false.
 Proof. vm_compute. repeat split. Qed.
 Print Assumptions C16_hyps_met.
+
+(** ** the writer, in general (Tree/WhenWrite.v, Tree/WhenWriteProofs.v)
+    [wrestrict s src tgt new]: the source restricted to the definitions whose 'when' holds on the target as the
+    editor sees it when it reaches them (left to right: the definitions before it already written).
+    Domain: well-formed choice-free schemas in which a conditional leaf has no default and list keys are
+    unconditional leaves ([when_schema_ok]); every shaped source and target; unboundedly. *)
+
+(** the conditional editor computes the unconditional merge (Tree/Merge.v, = the plain editor by C03) of the
+    restricted source; it fails exactly as the evaluation of a condition it needs fails *)
+Theorem C16_wedit_is_merge_of_restricted : forall s,
+  wf_schema s = true -> choice_free s = true -> when_schema_ok s = true -> is_leaf s = false ->
+  forall src tgt new, shaped s src = true -> shaped s tgt = true ->
+  match wrestrict s src tgt new with
+  | XOk src' => wedit s src tgt new = XOk (merge_one s src' tgt new) /\ shaped s src' = true
+  | XErr => wedit s src tgt new = XErr
+  | XPanic => wedit s src tgt new = XPanic
+  | XUnsup => True
+  end.
+Proof. exact wedit_is_merge_of_restricted. Qed.
+Print Assumptions C16_wedit_is_merge_of_restricted.
+
+(** at a container-like entry point: UpsertFrom = the plain editor (edit_content) = the merge, on the
+    restricted source *)
+Theorem C16_wupsert_is_edit_of_restricted : forall kids src tgt,
+  forallb wf_schema kids = true -> forallb choice_free kids = true -> forallb when_schema_ok kids = true ->
+  shaped_kids shaped kids src = true -> shaped_kids shaped kids tgt = true ->
+  match wrestrict_content kids src tgt with
+  | XOk src' => wupsert kids src tgt = XOk (merge_content kids src' tgt) /\
+                edit_content false kids src' tgt Upsert = Ok (merge_content kids src' tgt) /\
+                shaped_kids shaped kids src' = true
+  | XErr => wupsert kids src tgt = XErr
+  | XPanic => wupsert kids src tgt = XPanic
+  | XUnsup => True
+  end.
+Proof. exact wupsert_is_edit_of_restricted. Qed.
+Print Assumptions C16_wupsert_is_edit_of_restricted.
+
+(** what the restriction is, position by position, in terms of the result [r]: a leaf the source brings is
+    written iff its condition holds on the target in which the definitions before it have been written
+    ([firstn i r]) and the others not yet ([skipn i tgt]); otherwise it is left as it was; what the source
+    does not mention is left as it was *)
+Theorem C16_wupsert_writes_exactly_partial : forall kids src tgt src',
+  forallb wf_schema kids = true -> forallb choice_free kids = true -> forallb when_schema_ok kids = true ->
+  shaped_kids shaped kids src = true -> shaped_kids shaped kids tgt = true ->
+  wrestrict_content kids src tgt = XOk src' ->
+  exists r, wupsert kids src tgt = XOk r /\ r = merge_content kids src' tgt /\
+    (forall i, nth i src None = None -> nth i r None = nth i tgt None) /\
+    (forall i m ty il dflt d, nth_error kids i = Some (SLeaf m ty il dflt) -> nth i src None = Some d ->
+       exists ok, when_field true [] kids (firstn i r ++ skipn i tgt) (SLeaf m ty il dflt) = XOk ok /\
+                  nth i src' None = (if ok then Some d else None) /\
+                  nth i r None = (if ok then Some d else nth i tgt None)).
+Proof. exact wupsert_writes_exactly. Qed.
+Print Assumptions C16_wupsert_writes_exactly_partial.
+
+(** when_true_everywhere_is_plain_edit: if every condition the writer meets holds ([wwhens_true]), the editor
+    that consults 'when' and the one that knows nothing of it deliver the same (no restriction on defaults or
+    keys here) *)
+Theorem C16_when_true_everywhere : forall s,
+  wf_schema s = true -> choice_free s = true -> is_leaf s = false ->
+  forall src tgt new, shaped s src = true -> shaped s tgt = true ->
+  wwhens_true s src tgt new = true ->
+  wedit s src tgt new = XOk (merge_one s src tgt new).
+Proof. exact when_true_everywhere. Qed.
+Print Assumptions C16_when_true_everywhere.
+
+Theorem C16_when_true_everywhere_is_plain_edit : forall kids src tgt,
+  forallb wf_schema kids = true -> forallb choice_free kids = true ->
+  shaped_kids shaped kids src = true -> shaped_kids shaped kids tgt = true ->
+  wwhens_true_content kids src tgt = true ->
+  wupsert kids src tgt = XOk (merge_content kids src tgt) /\
+  edit_content false kids src tgt Upsert = Ok (merge_content kids src tgt).
+Proof. exact when_true_everywhere_is_plain_edit. Qed.
+Print Assumptions C16_when_true_everywhere_is_plain_edit.
+
+(** *** instances: the order of the definitions matters, the hypotheses are met, what lies outside *)
+Definition w_i32 (z : Z) : option dnode := Some (DLeaf (LV (VInt FInt32 z))).
+Definition w_a := SLeaf (kf_meta [x61] None) (TInt FInt32) false None.
+(** leaf b { when "a=1" } *)
+Definition w_b := SLeaf (kf_meta [x62] (Some [x61;x3d;x31])) (TInt FInt32) false None.
+
+(** the same edit {a=1, b=5} into an empty target: with a defined BEFORE b, a is written first, b's condition
+    then holds and b is written; with b defined before a, b's condition is evaluated before a is written: b is
+    dropped.  The restriction says so in both cases. *)
+Example C16_order_matters :
+  wupsert [w_a; w_b] [w_i32 1; w_i32 5] [None; None] = XOk [w_i32 1; w_i32 5] /\
+  wrestrict_content [w_a; w_b] [w_i32 1; w_i32 5] [None; None] = XOk [w_i32 1; w_i32 5] /\
+  wupsert [w_b; w_a] [w_i32 5; w_i32 1] [None; None] = XOk [None; w_i32 1] /\
+  wrestrict_content [w_b; w_a] [w_i32 5; w_i32 1] [None; None] = XOk [None; w_i32 1] /\
+  wwhens_true_content [w_a; w_b] [w_i32 1; w_i32 5] [None; None] = true /\
+  wwhens_true_content [w_b; w_a] [w_i32 5; w_i32 1] [None; None] = false.
+Proof. vm_compute. repeat split. Qed.
+
+(** the hypotheses of the general theorems are met on a schema with a keyed list whose entries hold a
+    conditional leaf and a conditional container: four source entries (two with the key of an entry that the
+    edit itself creates), conditions that become true / stay false through earlier writes of the same edit *)
+Definition w_k := SLeaf (kf_meta [x6b] None) TStr false None.
+(** container c { when "x=1"; leaf x } *)
+Definition w_c := SCont (kf_meta [x63] (Some [x78;x3d;x31])) [SLeaf (kf_meta [x78] None) (TInt FInt32) false None].
+Definition w_l := SList (kf_meta [x6c] None) [0%nat] (SCont (kf_meta [x6c] None) [w_k; w_a; w_b; w_c]).
+Definition w_key (b : byte) : option dnode := Some (DLeaf (LV (VStr [b]))).
+Definition w_cx (z : Z) : option dnode := Some (DCont [w_i32 z]).
+Definition w_src : content :=
+  [Some (DList [DCont [w_key x61; None; w_i32 5; None];
+                DCont [w_key x62; w_i32 1; w_i32 6; w_cx 1];
+                DCont [w_key x61; w_i32 1; None; None];
+                DCont [w_key x61; None; w_i32 8; None]])].
+Definition w_tgt : content := [Some (DList [DCont [w_key x62; w_i32 0; None; w_cx 1]])].
+Example C16_writer_hyps_met :
+  forallb wf_schema [w_l] = true /\ forallb choice_free [w_l] = true /\ forallb when_schema_ok [w_l] = true /\
+  shaped_kids shaped [w_l] w_src = true /\ shaped_kids shaped [w_l] w_tgt = true /\
+  wrestrict_content [w_l] w_src w_tgt =
+    XOk [Some (DList [DCont [w_key x61; None; None; None];
+                      DCont [w_key x62; w_i32 1; w_i32 6; w_cx 1];
+                      DCont [w_key x61; w_i32 1; None; None];
+                      DCont [w_key x61; None; w_i32 8; None]])] /\
+  wupsert [w_l] w_src w_tgt =
+    XOk [Some (DList [DCont [w_key x62; w_i32 1; w_i32 6; w_cx 1];
+                      DCont [w_key x61; w_i32 1; w_i32 8; None]])] /\
+  wwhens_true_content [w_l] w_src w_tgt = false /\
+  wwhens_true_content [w_l] [Some (DList [DCont [w_key x62; w_i32 1; w_i32 6; w_cx 1]])] w_tgt = true.
+Proof. vm_compute. repeat split. Qed.
+
+(** outside [when_schema_ok]: a conditional leaf WITH a default in a container the edit creates; the condition
+    is false, the default is not written - right, but no source restriction says so (the merge of the
+    restricted source writes the default) *)
+Definition w_d := SCont (kf_meta [x63] None)
+  [SLeaf (kf_meta [x78] None) (TInt FInt32) false None;
+   SLeaf (kf_meta [x79] (Some [x78;x3d;x31])) (TInt FInt32) false (Some (LV (VInt FInt32 4)))].
+Example C16_conditional_default_outside :
+  when_schema_ok w_d = false /\
+  wupsert [w_d] [Some (DCont [w_i32 2; None])] [None] = XOk [Some (DCont [w_i32 2; None])] /\
+  wrestrict_content [w_d] [Some (DCont [w_i32 2; None])] [None] = XOk [Some (DCont [w_i32 2; None])] /\
+  merge_content [w_d] [Some (DCont [w_i32 2; None])] [None] = [Some (DCont [w_i32 2; w_i32 4])].
+Proof. vm_compute. repeat split. Qed.
+
+(** FALSE in general: "a definition whose condition is false (on the target at the moment the editor reaches it)
+    is left untouched". *)
+Definition C16_wedit_untouched_full_statement : Prop :=
+  forall kids src tgt r i k,
+    forallb wf_schema kids = true -> forallb choice_free kids = true -> forallb when_schema_ok kids = true ->
+    shaped_kids shaped kids src = true -> shaped_kids shaped kids tgt = true ->
+    wupsert kids src tgt = XOk r -> nth_error kids i = Some k ->
+    kid_when kids (firstn i r ++ skipn i tgt) i k = XOk false ->
+    nth i r None = nth i tgt None.
+(** counter-example (the container case of [wedit]; leaves obey it: C16_wupsert_writes_exactly_partial):
+    container c { when "x=1"; leaf x { default 1 }; leaf y }, target c = {x=2, y=7}, edit c = {y=9}.
+    The condition is false on the existing c, so to.selekt hides it; the editor then creates c anew, the
+    condition holds on the FRESH container (x unset, default 1) and the edit goes into it:
+    the result is c = {x=1, y=9}; x=2 is lost.  [wrestrict] reports this case as XUnsup. *)
+Definition w_r := SCont (kf_meta [x63] (Some [x78;x3d;x31]))
+  [SLeaf (kf_meta [x78] None) (TInt FInt32) false (Some (LV (VInt FInt32 1)));
+   SLeaf (kf_meta [x79] None) (TInt FInt32) false None].
+Example C16_replaced_container_counterexample :
+  kid_when [w_r] [Some (DCont [w_i32 2; w_i32 7])] 0 w_r = XOk false /\
+  wupsert [w_r] [Some (DCont [None; w_i32 9])] [Some (DCont [w_i32 2; w_i32 7])]
+    = XOk [Some (DCont [w_i32 1; w_i32 9])] /\
+  wrestrict_content [w_r] [Some (DCont [None; w_i32 9])] [Some (DCont [w_i32 2; w_i32 7])] = XUnsup.
+Proof. vm_compute. repeat split. Qed.
+Theorem C16_wedit_untouched_full_statement_refuted : ~ C16_wedit_untouched_full_statement.
+Proof.
+  intros H.
+  specialize (H [w_r] [Some (DCont [None; w_i32 9])] [Some (DCont [w_i32 2; w_i32 7])]
+                [Some (DCont [w_i32 1; w_i32 9])] 0%nat w_r
+                eq_refl eq_refl eq_refl eq_refl eq_refl).
+  assert (Hr : wupsert [w_r] [Some (DCont [None; w_i32 9])] [Some (DCont [w_i32 2; w_i32 7])]
+               = XOk [Some (DCont [w_i32 1; w_i32 9])]) by (vm_compute; reflexivity).
+  specialize (H Hr eq_refl).
+  assert (Hw : kid_when [w_r] (firstn 0 [Some (DCont [w_i32 1; w_i32 9])] ++ skipn 0 [Some (DCont [w_i32 2; w_i32 7])]) 0 w_r
+               = XOk false) by (vm_compute; reflexivity).
+  specialize (H Hw). vm_compute in H. discriminate H.
+Qed.
+Print Assumptions C16_wedit_untouched_full_statement_refuted.
+
+(** ** when_hides with choices (Tree/WhenHideProofs.v).  [wexport_m pth u] is the export from any container-like
+    entry point ([wexport true] = [wexport_m [] false]).
+    General form: a definition whose condition is false is exported exactly as if its data were absent,
+    whatever choices the schema has, PROVIDED hiding it leaves every case selection as it is. *)
+Theorem C16_when_hides_sel : forall pth u kids c i k,
+  nth_error kids i = Some k -> has_when k = true ->
+  same_selection kids c i ->
+  kid_when kids c i k = XOk false ->
+  wexport_m pth u kids c = wexport_m pth u kids (set_nth i None c).
+Proof. exact when_hides_sel. Qed.
+Print Assumptions C16_when_hides_sel.
+
+(** ... which is the case when the conditional definition is itself outside every choice (its siblings may sit
+    in choices: generalises C16_when_hides) *)
+Theorem C16_when_hides_unguarded : forall pth u kids c i k,
+  nth_error kids i = Some k -> has_when k = true -> sguard k = [] ->
+  kid_when kids c i k = XOk false ->
+  wexport_m pth u kids c = wexport_m pth u kids (set_nth i None c).
+Proof. exact when_hides_unguarded. Qed.
+Print Assumptions C16_when_hides_unguarded.
+
+(** ... and when every case the definition sits in holds other data *)
+Theorem C16_when_hides_in_case : forall pth u kids c i k,
+  nth_error kids i = Some k -> has_when k = true -> case_has_other kids c i k ->
+  kid_when kids c i k = XOk false ->
+  wexport_m pth u kids c = wexport_m pth u kids (set_nth i None c).
+Proof. exact when_hides_in_case. Qed.
+Print Assumptions C16_when_hides_in_case.
+
+(** FALSE without the proviso: a node hidden by its 'when' still counts as data of its case *)
+Definition C16_when_hides_choices_full_statement : Prop :=
+  forall pth u kids c i k,
+    nth_error kids i = Some k -> has_when k = true ->
+    kid_when kids c i k = XOk false ->
+    wexport_m pth u kids c = wexport_m pth u kids (set_nth i None c).
+(** counter-example: container p { choice ch { case A { leaf k { when "z=1" }  leaf d { default 5 } } }  leaf z },
+    p = {k=1, z=0}.  k is hidden, but its data still selects case A, so d's default is exported:
+    p = {d=5, z=0}; with k absent no case is selected: p = {z=0}. *)
+Definition h_k := SLeaf (mkMeta [x6b] [x6d] true [(0%nat, 0%nat)] (Some [x7a;x3d;x31])) (TInt FInt32) false None.
+Definition h_d := SLeaf (mkMeta [x64] [x6d] true [(0%nat, 0%nat)] None) (TInt FInt32) false (Some (LV (VInt FInt32 5))).
+Definition h_z := SLeaf (mkMeta [x7a] [x6d] true [] None) (TInt FInt32) false None.
+Definition h_p := SCont (mkMeta [x70] [x6d] true [] None) [h_k; h_d; h_z].
+Example C16_hidden_node_still_selects_its_case :
+  kid_when [h_k; h_d; h_z] [w_i32 1; None; w_i32 0] 0 h_k = XOk false /\
+  wexport true [h_p] [Some (DCont [w_i32 1; None; w_i32 0])] = XOk [Some (DCont [None; w_i32 5; w_i32 0])] /\
+  wexport true [h_p] [Some (DCont [None; None; w_i32 0])] = XOk [Some (DCont [None; None; w_i32 0])].
+Proof. vm_compute. repeat split. Qed.
+Theorem C16_when_hides_choices_full_statement_refuted : ~ C16_when_hides_choices_full_statement.
+Proof.
+  intros H.
+  specialize (H [] true [h_k; h_d; h_z] [w_i32 1; None; w_i32 0] 0%nat h_k eq_refl eq_refl).
+  assert (Hf : kid_when [h_k; h_d; h_z] [w_i32 1; None; w_i32 0] 0 h_k = XOk false) by (vm_compute; reflexivity).
+  specialize (H Hf). vm_compute in H. discriminate H.
+Qed.
+Print Assumptions C16_when_hides_choices_full_statement_refuted.
+
+(** the provisos are met: d has data too, so hiding k changes no selection (and the two exports agree) *)
+Example C16_case_has_other_met :
+  case_has_other [h_k; h_d; h_z] [w_i32 1; w_i32 7; w_i32 0] 0 h_k /\
+  kid_when [h_k; h_d; h_z] [w_i32 1; w_i32 7; w_i32 0] 0 h_k = XOk false /\
+  wexport_m [] true [h_k; h_d; h_z] [w_i32 1; w_i32 7; w_i32 0] = XOk [None; w_i32 7; w_i32 0].
+Proof.
+  split; [|vm_compute; split; reflexivity].
+  intros ch kc Hg. exists 1%nat, h_d.
+  destruct ch as [|ch]; [|discriminate Hg]. simpl in Hg. inversion Hg; subst kc.
+  repeat split. discriminate.
+Qed.
+(** an unguarded conditional leaf among siblings that sit in a choice *)
+Definition h_u := SLeaf (mkMeta [x75] [x6d] true [] (Some [x7a;x3d;x31])) (TInt FInt32) false None.
+Example C16_unguarded_met :
+  nth_error [h_u; h_d; h_z] 0 = Some h_u /\ has_when h_u = true /\ sguard h_u = [] /\
+  kid_when [h_u; h_d; h_z] [w_i32 1; w_i32 7; w_i32 0] 0 h_u = XOk false /\
+  wexport_m [] true [h_u; h_d; h_z] [w_i32 1; w_i32 7; w_i32 0] = XOk [None; w_i32 7; w_i32 0].
+Proof. vm_compute. repeat split. Qed.
